@@ -66,6 +66,20 @@ def setup():
     if not where.startswith(REPO_SRC + os.sep):
         raise HarnessError("bumpver imported from %s, expected under %s" % (where, REPO_SRC))
 
+    # click's test runner captures stdout through a *strict* UTF-8 stream; the real processes of this sandbox (and of the
+    # fidelity legs) run under the C.UTF-8 locale, whose stdout passes undecodable file-name bytes through (surrogateescape).
+    # The in-process seam has to behave like the process it stands for.
+    import click.testing as _ct
+    _orig_wrapper = _ct._NamedTextIOWrapper
+
+    class _LocaleFaithfulWrapper(_orig_wrapper):
+        def __init__(self, buffer, name, mode, **kw):
+            if name == "<stdout>" and "errors" not in kw:
+                kw["errors"] = "surrogateescape"
+            super().__init__(buffer, name, mode, **kw)
+
+    _ct._NamedTextIOWrapper = _LocaleFaithfulWrapper
+
     root = logging.getLogger()
     for h in list(root.handlers):
         root.removeHandler(h)
